@@ -33,6 +33,15 @@ theorem accepts_silent_outside {cfg : Cfg} {tr : TimedTrace} (h : accepts cfg tr
   have := ((accepts_iff cfg tr).1 h).2.1
   unfold SilentOK at this; rw [hc] at this; exact this
 
+/-- stop when told (3): after the subscription context was cancelled the stream falls silent — counted,
+    not timed: at most `cancelSlack + 2` deliveries, plus one per source call that returned after the
+    cancellation, begin after `cancel()` returned, however long the trace was observed -/
+theorem accepts_silent_cancel {cfg : Cfg} {tr : TimedTrace} (h : accepts cfg tr = true) {c0 c1 : Nat}
+    (hc : tr.cut = .cancel c0 c1) :
+    lateCount c1 tr.dels ≤ cancelSlack + 2 + (tr.emits.filter (fun e => decide (c1 < e.t1))).length := by
+  have := ((accepts_iff cfg tr).1 h).2.1
+  unfold SilentOK at this; rw [hc] at this; exact this
+
 /-- Delay: k-th delivery = k-th emission, at least `d` after it was emitted -/
 theorem accepts_delay {cfg : Cfg} {tr : TimedTrace} (hop : cfg.op = .delay) (h : accepts cfg tr = true)
     {k : Nat} {dl : Ev} (hk : tr.dels[k]? = some dl) :
@@ -155,9 +164,9 @@ theorem accepts_sample {cfg : Cfg} {tr : TimedTrace} (hop : cfg.op = .sampleTime
 /-- time buffers: only source values (emitted before the buffer was delivered), consecutive inside a
     buffer, later in the source than every value of every earlier buffer; at most `n` per buffer -/
 theorem accepts_buffer {cfg : Cfg} {tr : TimedTrace} (cnt : Option Nat)
-    (hop : OpAt cfg = BufferAt cnt cfg.d) (h : accepts cfg tr = true)
+    (hop : OpAt cfg = BufferAt cnt cfg.xorder cfg.d) (h : accepts cfg tr = true)
     {k : Nat} {dl : Ev} (hk : tr.dels[k]? = some dl) (vs : List Int) (hv : dl.n = .buf vs) :
-    (∀ v ∈ vs, ∃ j e, srcOf tr (.next v) = some (j, e) ∧ e.t0 ≤ dl.t0) ∧ Contiguous tr vs ∧ AfterEarlierBuffers tr k vs
+    (∀ v ∈ vs, ∃ j e, srcOf tr (.next v) = some (j, e) ∧ e.t0 ≤ dl.t0) ∧ Contiguous tr vs ∧ (cfg.xorder = true → AfterEarlierBuffers tr k vs)
       ∧ (∀ n, cnt = some n → vs.length ≤ n)
       ∧ tr.sub + (k + 1 - extraFlushes cnt tr dl.t0) * cfg.d ≤ dl.t0 := by
   have := accepts_at h hk
